@@ -128,6 +128,12 @@ func Build(name string) *Scenario {
 	if sc.Cfg.LockPoints {
 		sc.Cfg.MaxSteps = 3000000
 	}
+	// stall=<d>: a further scheduling deviation, "this thread does not get
+	// the processor for d" (e.g. a Close that is descheduled half-way while
+	// the next connection is already being set up and used)
+	if v, ok := p["stall"]; ok {
+		sc.Cfg.StallQuantum, _ = time.ParseDuration(v)
+	}
 	return sc
 }
 
